@@ -222,6 +222,7 @@ Recv(c) ==
                              /\ pc' = [pc EXCEPT ![c] = "closing"]
           [] v = "fail" -> /\ out' = [out EXCEPT ![c] = [kind |-> "fail", from |-> d.reqOf, cls |-> d.cls, at |-> now]]
                            /\ pc' = [pc EXCEPT ![c] = "closing"]
+          [] OTHER -> FALSE     \* (no such verdict; states the CASE is exhaustive - needed by spec/proofs/TransportProofs.tla)
   /\ UNCHANGED <<now, guard, askedAt, open, pend, plan, strays, sends, hist>>
 
 Timeout(c) ==
